@@ -178,6 +178,10 @@ def check(ctx):
     from . import share
     EXPR_SLOTS = (".cond:", ".expr:", ".next:", ".init:", ".iftrue:", ".iffalse:")
     share.borrow(ctx, "C05", ("R-C05.1",), "R-C02.5", keep=lambda f: any(k in f.message for k in EXPR_SLOTS), count=12)
+    # "constant spellings (with the type implied by their suffix / prefix) appear in the tree exactly as written": the type computed by
+    # _parse_constant for every literal class and suffix is decided by the finite abstract evaluation of C10
+    ctx.rule("R-C02.6", "Constant.type is the type the literal's suffix / prefix implies, for every literal class and suffix spelling (decided by the constant-typing evaluation of C10)")
+    share.borrow(ctx, "C10", ("R-C10.3",), "R-C02.6", count=40)
     ctx.info["explanation"] = ("order comparison of the folded precedence table with C99's ten levels (all operator pairs); relational recognition of the precedence-climbing schema; flow-sensitive "
                                "def-use wiring of every constructor site, return and list append of the 18 expression productions compared with the reviewed reference in sa/wiring_ref.json "
                                "(operand provenance = producing call site of the production of the right level, token provenance = set of token types the call site can consume)")
